@@ -13,34 +13,108 @@ os.environ.setdefault("PYTHONHASHSEED", "0")
 from harness import common, dynamic, corpus, tlc   # noqa: E402
 from harness.common import Verdict                  # noqa: E402
 
-DYNAMIC_PROPS = ["C01", "C02", "C03", "C04", "C05", "C06", "C07", "C08", "C13"]
+BASE_PROPS = ["C01", "C02", "C03", "C04", "C05", "C06", "C07", "C08", "C13"]
+DYNAMIC_PROPS = BASE_PROPS + ["C09", "C10", "C11", "C12"]
+GEN_BENCH = ["tiny-gen", "tiny-gen-rgoal", "small-gen", "small-gen-rgoal", "medium-gen", "large-gen", "huge-gen",
+             "pocp-1-gen", "pocp-2-gen"]
+
+
+def exh(src, **kw):
+    return dict(src=src, exhaustive=True, **kw)
+
+
+def rnd(src, n, sd, **kw):
+    return dict(src=src, random_steps=n, seed=sd, **kw)
+
+
+def gen_src(name, seed, **params):
+    p = dict(num_hosts=5, num_services=2, seed=seed)
+    p.update(params)
+    return ("gen", p, "%s-s%d" % (name, seed))
+
+
+def layout_gen_sources(seed, n):
+    """generated scenarios with custom (larger) address bounds and 1..10 OS / services / processes"""
+    out = []
+    shapes = [(1, 1, 1), (3, 2, 4), (2, 5, 1), (4, 3, 3), (1, 7, 2), (6, 2, 6), (10, 4, 2), (2, 10, 3), (3, 3, 10),
+              (5, 6, 5)]
+    for i in range(n):
+        nos, nsrv, nproc = shapes[i % len(shapes)]
+        nh = 3 + (i * 3) % 9
+        out.append(gen_src("layout%d" % i, seed + i, num_hosts=nh, num_services=nsrv, num_os=nos,
+                           num_processes=nproc, address_space_bounds=(6 + i % 5, 5 + (i * 2) % 6),
+                           uniform=(i % 2 == 0), r_sensitive=10 + i, r_user=7.5, base_host_value=(i % 3) - 1,
+                           host_discovery_value=0.5 * (i % 4), step_limit=50))
+    return out
 
 
 def dynamic_jobs(tier, seed, prop):
+    from harness.replay import ALL_MODES
     jobs = []
-    for n in corpus.names():
-        jobs.append(dict(src=("corpus_dict", n), exhaustive=True))
-    for n in ["fw_asym", "deny", "two_public", "user_only"]:
-        jobs.append(dict(src=("corpus_yaml", n), exhaustive=True))
-    jobs.append(dict(src=("bench_yaml", "tiny"), exhaustive=True))
-    if tier == "quick":
-        jobs.append(dict(src=("bench_yaml", "medium-multi-site"), random_steps=500, seed=seed + 1))
-        jobs.append(dict(src=("bench_gen", "small-gen", seed % 50), random_steps=700, seed=seed + 2))
-        jobs.append(dict(src=("bench_yaml", "tiny-small"), random_steps=700, seed=seed + 3))
-    else:
+    quick = tier == "quick"
+    if prop in BASE_PROPS:
+        for n in corpus.names():
+            jobs.append(exh(("corpus_dict", n)))
+        for n in ["fw_asym", "deny", "two_public", "user_only"]:
+            jobs.append(exh(("corpus_yaml", n)))
+        jobs.append(exh(("bench_yaml", "tiny")))
+        if quick:
+            jobs.append(rnd(("bench_yaml", "medium-multi-site"), 500, seed + 1))
+            jobs.append(rnd(("bench_gen", "small-gen", seed % 50), 700, seed + 2))
+            jobs.append(rnd(("bench_yaml", "tiny-small"), 700, seed + 3))
+    elif prop == "C09":
+        for n in ["os_mix", "chain", "fw_asym", "two_public"]:
+            jobs.append(exh(("corpus_dict", n)))
+        jobs.append(exh(("corpus_yaml", "deny")))
+        jobs.append(exh(("bench_yaml", "tiny")))
+        for src in layout_gen_sources(seed, 6 if quick else 40):
+            jobs.append(rnd(src, 250 if quick else 600, seed + 5, modes=ALL_MODES[:4]))
+    elif prop == "C10":
+        for n in ["two_public", "os_mix"]:
+            jobs.append(exh(("corpus_dict", n), modes=ALL_MODES))
+        for n in ["fw_asym", "deny", "chain", "user_only"]:
+            jobs.append(exh(("corpus_dict", n)))
+        jobs.append(exh(("bench_yaml", "tiny"), modes=ALL_MODES))
+        jobs.append(rnd(("bench_yaml", "small-honeypot"), 600, seed + 1, modes=ALL_MODES))
+        jobs.append(rnd(("bench_gen", "medium-gen", seed % 50), 500, seed + 2, modes=ALL_MODES[:4]))
+        for src in layout_gen_sources(seed + 50, 3):
+            jobs.append(rnd(src, 300, seed + 6, modes=ALL_MODES))
+    elif prop == "C11":
+        for n in corpus.names():
+            jobs.append(exh(("corpus_dict", n)))
+        jobs.append(exh(("corpus_yaml", "deny")))
+        jobs.append(exh(("bench_yaml", "tiny")))
+        jobs.append(rnd(("bench_yaml", "medium"), 300, seed + 1))
+        jobs.append(rnd(("bench_gen", "small-gen-rgoal", seed % 50), 300, seed + 2))
+        jobs.append(rnd(("bench_yaml", "small"), 300, seed + 3))
+    elif prop == "C12":
+        for n in ["fw_asym", "deny", "two_public", "os_mix", "user_only"]:
+            jobs.append(exh(("corpus_dict", n), modes=ALL_MODES, foreign=False))
+        jobs.append(exh(("corpus_yaml", "two_public"), modes=ALL_MODES, foreign=False))
+        jobs.append(rnd(("bench_yaml", "tiny-small"), 300, seed + 1, modes=ALL_MODES, lockstep=True))
+        jobs.append(rnd(("bench_gen", "small-gen", seed % 50), 300, seed + 2, modes=ALL_MODES, lockstep=True))
+        jobs.append(rnd(("bench_yaml", "medium"), 200, seed + 3, modes=ALL_MODES, lockstep=True))
+    if not quick:
         for n in ["tiny-hard", "tiny-small", "small-linear", "small", "small-honeypot"]:
-            jobs.append(dict(src=("bench_yaml", n), exhaustive=True, foreign=(n.startswith("tiny")), workers=2,
-                             timeout=7200))
+            jobs.append(exh(("bench_yaml", n), foreign=(n.startswith("tiny")), workers=2, timeout=7200,
+                            modes=ALL_MODES if (prop in ("C10", "C12") and n.startswith("tiny")) else replay_default()))
+        ls = prop == "C12"
+        md = ALL_MODES if prop in ("C10", "C12") else replay_default()
         for i, n in enumerate(corpus.YAML_BENCHMARKS):
-            jobs.append(dict(src=("bench_yaml", n), random_steps=3000, seed=seed + 10 + i))
-        for i, n in enumerate(["tiny-gen", "tiny-gen-rgoal", "small-gen", "small-gen-rgoal", "medium-gen",
-                               "large-gen", "huge-gen", "pocp-1-gen", "pocp-2-gen"]):
-            for s in range(2):
-                jobs.append(dict(src=("bench_gen", n, (seed + s) % 100),
-                                 random_steps=2500 if i < 6 else 1200, seed=seed + 100 + 2 * i + s))
+            jobs.append(rnd(("bench_yaml", n), 3000 if not ls else 600, seed + 10 + i, modes=md, lockstep=ls))
+        for i, n in enumerate(GEN_BENCH):
+            for s_ in range(2):
+                jobs.append(rnd(("bench_gen", n, (seed + s_) % 100), (2500 if i < 6 else 1200) if not ls else 400,
+                                seed + 100 + 2 * i + s_, modes=md, lockstep=ls))
     # longest first so that the pool is used well
-    jobs.sort(key=lambda j: -(j.get("random_steps", 0) + (100000 if j.get("exhaustive") and j["src"][0] == "bench_yaml" else 0)))
+    jobs.sort(key=lambda j: -(j.get("random_steps", 0) * len(j.get("modes", (1, 2)))
+                              + (100000 if j.get("exhaustive") else 0) * len(j.get("modes", (1, 2)))))
     return jobs
+
+
+def replay_default():
+    from harness.replay import DEFAULT_MODES
+    return DEFAULT_MODES
 
 
 def check_dynamic(prop, tier, seed):
@@ -129,6 +203,9 @@ def main():
     if a.tier:
         os.environ["VERIF_TIER"] = a.tier
     tier, seed = common.tier(), common.seed()
+    if a.prop == "selftest":
+        from harness import selftest
+        return selftest.run(light=(os.environ.get("SELFTEST_LIGHT") == "1"))
     if a.prop == "all":
         rc = 0
         for p in sorted(CHECKS):
